@@ -181,7 +181,7 @@ theorem enforcer_accepts_of_usage (t : LNode) (n : ENode) (O : List Obs)
       e'.finalize.1.anchors = nAnchors (itemRaws (itemsOf t)) := by
     rw [C07.finalize_fst]
     exact ⟨hal, by simp only [hdef', nAnchors_eq]⟩
-  rw [C07.finalize_snd, hrel.lim_e, hfst.1, hfst.2]
+  rw [C07.finalize_snd _ hrel.pd_e, hrel.lim_e, hfst.1, hfst.2]
   have ha : nAliasItems (itemsOf t) ≤ USIZE_MAX := by omega
   simp only [ratioOk] at hr
   simp at hr ⊢
